@@ -235,6 +235,10 @@ def oracle(c, real, model):
                 return "re-encoding a decoded canonical section does not reproduce it byte for byte"
             if L.crc32_mpeg2(r[1][0]) != 0:
                 return "CRC-32/MPEG-2 of the encoded section is not zero"
+        elif c.kind == "known-mid-stale":
+            r = parse_val(real)
+            if r[0] == 0 and r[1][4][0] != 0:
+                return "the encoding after MID()[j].SetUPID is not decodable (stale upidLen)"
         elif c.kind == "clean-history":
             r = parse_val(real)
             if r[0] != 0:
